@@ -65,6 +65,17 @@ fn batches(m: &ModelCfg) -> Vec<(Vec<usize>, Vec<f64>)> {
     out
 }
 
+/// the target of batch b: the output's dimensions, or - for every second batch of row vectors - one
+/// row shared by all rows of the batch (a legal broadcast target: the costs take their counts from the
+/// output)
+fn target_dims(out_dims: &[usize], b: usize) -> Vec<usize> {
+    if out_dims.len() == 2 && out_dims[0] > 1 && b % 2 == 1 {
+        vec![out_dims[1]]
+    } else {
+        out_dims.to_vec()
+    }
+}
+
 fn target_for(out_dims: &[usize], b: usize) -> Vec<f64> {
     let n = numel(out_dims);
     (0..n).map(|i| 0.125 + 0.125 * ((i + b) % 4) as f64).collect()
@@ -116,7 +127,8 @@ fn run_impl(m: &ModelCfg, hist: &[Iter], init_params: &[T]) -> Result<RunOut, St
                         'B' => {
                             let x = T::from_f64(bs[b].0.clone(), &bs[b].1);
                             let od = out_dims_ref(m, init_params, &x).expect("output dims");
-                            losses.push(model.backward(arr(&od, &target_for(&od, b))));
+                            let td = target_dims(&od, b);
+                            losses.push(model.backward(arr(&td, &target_for(&td, b))));
                         }
                         _ => {
                             model.update();
@@ -151,7 +163,8 @@ fn ref_loss_grad(m: &ModelCfg, params: &[T], b: usize) -> Result<(Du, Vec<Vec<Du
     let bs = batches(m);
     let x = T::from_f64(bs[b].0.clone(), &bs[b].1);
     let out = ref_forward(&m.layers, params, &x)?;
-    let t = T::from_f64(out.dims.clone(), &target_for(&out.dims, b));
+    let td = target_dims(&out.dims, b);
+    let t = T::from_f64(td.clone(), &target_for(&td, b));
     let loss = sum_all_ref(&m.cost.apply_ref(&out, &t)?);
     let mut grads = Vec::new();
     for pi in 0..params.len() {
